@@ -68,7 +68,10 @@ def cidr(rng, width=None):
 
 
 B64 = ["YWJj", "QmluYXJ5VmFsdWVJbkJhc2U2NA==", "", "AA==", "/+8=", "YQ=="]
-DATES = ["2020-01-01T00:00:00Z", "2019-06-30T12:30:00+02:00", "2021-12-31", 1577836800, "1577836800"]
+DATES = ["2020-01-01T00:00:00Z", "2019-06-30T12:30:00+02:00", "2021-12-31", 1577836800, "1577836800",
+         # the "never expires" / "since ever" sentinels written with an offset: valid timestamps whose UTC form is out of range
+         # (seeded change C05-r3m2 converted aware timestamps to UTC before rendering them; its detection had depended on one lucky draw)
+         "9999-12-31T23:59:59-05:00", "0001-01-01T00:00:00+02:00"]
 
 
 def cond_value(rng, fam, g, width=None):
